@@ -99,7 +99,7 @@ def gate_stress(ck, n):
 def run(ck):
     if THEOREMS:
         ck.prove('C04', THEOREMS)
-    fails, mism = wk.campaign(ck, ck.scale(60, 1500), oracle, gen_kw={'extra_prob': 0.6}, coq_lanes=1, coq_every=2, line_level=True)
+    fails, mism = wk.campaign(ck, ck.scale(60, 1500), oracle, gen_kw={'extra_prob': 0.6, 'strip_prob': 0.25}, coq_lanes=1, coq_every=2, line_level=True)
     ck.rule('random circuits x integer delay tables x capacities x multi-transition input waveforms on the integer (dyadic) grid; '
             'oracle: independent static timing analysis over the annotated netlist, reruns shifted by +16/-5 and scaled by 4 and 1/2, '
             'strict monotonicity for polarity-independent delay tables')
